@@ -133,7 +133,7 @@ func loadAll(pkgDirs []string) (*loaded, error) {
 	prog, _ := ssautil.AllPackages(pkgs, ssa.NaiveForm|ssa.GlobalDebug|ssa.InstantiateGenerics)
 	prog.Build()
 	eng := &Engine{prog: prog, layouts: map[string][]Comp{}, heapSorts: map[string]Sort{}, heapComps: map[string]Comp{}, typeIDs: map[string]int{},
-		contracts: map[string]*FuncContract{}, specs: map[string]*SpecFunc{}, fnByKey: map[string]*ssa.Function{}, repoPrefix: modPath}
+		contracts: map[string]*FuncContract{}, specs: map[string]*SpecFunc{}, fnByKey: map[string]*ssa.Function{}, repoPrefix: modPath, pkgInvs: map[string][]Clause{}}
 	for _, cf := range ld.files {
 		for _, sf := range cf.Specs {
 			if _, dup := eng.specs[sf.Name]; dup {
@@ -142,6 +142,9 @@ func loadAll(pkgDirs []string) (*loaded, error) {
 			eng.specs[sf.Name] = sf
 		}
 		eng.axioms = append(eng.axioms, cf.Axioms...)
+		if pp, ok := ld.pkgOf[cf]; ok {
+			eng.pkgInvs[pp] = append(eng.pkgInvs[pp], cf.Invariants...)
+		}
 		for _, fc := range cf.Funcs {
 			key := fc.Key
 			if pp, ok := ld.pkgOf[cf]; ok && !fc.Extern {
@@ -305,6 +308,24 @@ func cmdCheck(args []string) int {
 			}
 			rep := ld.eng.verifyFunc(fn, fc)
 			reports = append(reports, rep)
+		}
+	}
+	initDone := map[string]bool{}
+	for _, r := range append([]*FuncReport(nil), reports...) {
+		if r.Fn == nil || r.Fn.Pkg == nil {
+			continue
+		}
+		pp := r.Fn.Pkg.Pkg.Path()
+		if initDone[pp] || len(ld.eng.pkgInvs[pp]) == 0 {
+			continue
+		}
+		initDone[pp] = true
+		if initFn := r.Fn.Pkg.Func("init"); initFn != nil {
+			fc := &FuncContract{Key: "init", Props: []string{prop}, LoopInv: map[int][]Clause{}, LoopDec: map[int]Clause{}, Safety: map[string]bool{}, PkgInit: true}
+			for _, inv := range ld.eng.pkgInvs[pp] {
+				fc.Ensures = append(fc.Ensures, inv)
+			}
+			reports = append(reports, ld.eng.verifyFunc(initFn, fc))
 		}
 	}
 	for _, ax := range ld.eng.axioms {
@@ -554,8 +575,10 @@ func cmdFunc(args []string) int {
 						sort.Strings(ks)
 						n := 0
 						for _, k := range ks {
-							if strings.Contains(k, "[") {
-								continue
+							if strings.Contains(k, "[") && !(len(args) > 2 && args[2] == "-full") {
+								if !strings.HasSuffix(k, "[0]") && !strings.HasSuffix(k, "[1]") && !strings.HasSuffix(k, "[2]") && !strings.HasSuffix(k, "[3]") {
+									continue
+								}
 							}
 							fmt.Printf("       %s = %s\n", k, o.Result.Model[k])
 							n++
